@@ -112,6 +112,13 @@ func Fill(p []byte, name string) {
 	}
 }
 
+// FillFunc sets p[i] = fn(i) for every index of p.
+func FillFunc(p []byte, fn func(i int) byte) {
+	for i := range p {
+		p[i] = fn(i)
+	}
+}
+
 func Assume(c bool) {
 	if !c {
 		panic(AssumeFalse{})
@@ -154,6 +161,8 @@ func KnownPanic(id, where string) { knownPanics = append(knownPanics, [2]string{
 
 // ExactCRC selects the exact GF(2)-linear CRC evaluation (true) or the congruent uninterpreted model (false, default).
 func ExactCRC(on bool)     {}
+// MaxLoop declares that a loop of the code under test that can run more than n iterations is a violation.
+func MaxLoop(n int)       {}
 func Unwind(n int)        {}
 func AllocCap(n int)      {}
 func AllocLimit(n uint64) {}
